@@ -464,13 +464,17 @@ def check(P, R, tier):
     import durdecode
     nn = durdecode.check(R, P, "RF2-neg")
     R.floor("RF2-neg", "decoded parses / negations / sign tests of durations", nn, 150)
+    # what the clamps clamp to: days, weekday counts and business days of a month as tables over their whole domain
+    import lentab
+    nl = lentab.check(P, R, tu, {"mdays", "mcnt", "bdays"}, rule="RF2-closed")
+    R.floor("RF2-closed", "entries of the clamp targets spelled as closed forms", nl, 250)
 
 
 LEVEL = ("Decides month / year addition structurally for all dates and counts: 12*year + month moves by exactly n (linear loop "
          "invariant), the stored month stays in 1..12 (interval analysis), only year and month are written so the day is kept and "
          "steps compose, every fixup clamps exactly its field down to the maximum and skips only values every period has, and "
          "the fixup dominates every conversion and print.  On top of that the adders are decoded with the count symbolic over "
-         "+-40 months / +-6 years and the four fixups over their whole domain (RF2-mon).  The clamp targets themselves (days per "
-         "month etc.) are decoded as tables under C01 / C03 (RF2-closed).")
+         "+-40 months / +-6 years and the four fixups over their whole domain (RF2-mon).  The clamp targets themselves (days, "
+         "weekday counts and business days per month) are decoded as tables over their whole domain (RF2-closed).")
 RULE = "obligation = one adder invariant / range / write set, one fixup clamp, one dominance fact"
 ASSUME = ["results stay inside the 12-bit year field (the property's 'result in range')", "input months are 1..12"]
